@@ -618,7 +618,7 @@ def partSamples (s : Spec K) (cfg : Config) (n : String) (t : ModType) : List St
 theorem singularSample_eq (s : Spec K) (cfg : Config) (n : String) (t : ModType) :
     singularSample s cfg n t = (partSamples s cfg n t).getLast? := rfl
 
-theorem zip_map_self {α β : Type} (f : α → β) (l : List α) : l.zip (l.map f) = l.map fun a => (a, f a) := by
+theorem rej_zip_map_self {α β : Type} (f : α → β) (l : List α) : l.zip (l.map f) = l.map fun a => (a, f a) := by
   induction l with
   | nil => rfl
   | cons a l ih => simp [ih]
@@ -626,7 +626,7 @@ theorem zip_map_self {α β : Type} (f : α → β) (l : List α) : l.zip (l.map
 theorem participating_eq (s : Spec K) (cfg : Config) (n : String) :
     ((cfg.samples.zip (cfg.samples.map fun sm => maskTab s cfg n .staterror sm)).filter fun (_, m) => m.any id) =
       (partSamples s cfg n .staterror).map fun sm => (sm, maskTab s cfg n .staterror sm) := by
-  rw [zip_map_self, List.filter_map]
+  rw [rej_zip_map_self, List.filter_map]
   rfl
 
 theorem staterrorSigmas_error (P : Prim K) (s : Spec K) (cfg : Config) (n : String) (e : Err)
@@ -781,7 +781,7 @@ theorem mkSlices_go_find (n : String) : ∀ (sizes : List (String × Nat)) (star
       simp only [this]
       exact ih _
 
-theorem selection_length (ps : List (Paramset K)) (n : String) :
+theorem rej_selection_length (ps : List (Paramset K)) (n : String) :
     (selection (parSlices ps) n).length = ((ps.find? (·.name == n)).map (·.n)).getD 0 := by
   unfold selection sliceOf parSlices mkSlices
   have h := mkSlices_go_find n (ps.map fun p => (p.name, p.n)) 0
@@ -868,7 +868,7 @@ theorem findSample_some (s : Spec K) (c sm : String) (x : Sample K) (h : findSam
   obtain ⟨hch1, hch2⟩ := List.mem_filter.mp hch
   exact ⟨ch, hch1, by simpa using hch2, hx, by simpa using hp⟩
 
-theorem findMod_some (x : Sample K) (n : String) (t : ModType) (m : Modifier K) (h : findMod x n t = some m) :
+theorem rej_findMod_some (x : Sample K) (n : String) (t : ModType) (m : Modifier K) (h : findMod x n t = some m) :
     m ∈ x.mods ∧ m.name = n ∧ m.type = t := by
   unfold findMod at h
   obtain ⟨hmem, hp⟩ := lastSome_some _ _ _ h
@@ -1104,8 +1104,8 @@ theorem shapesys_cell_unique (s : Spec K) (hr : shapesysReuse s = false) (n : St
   obtain ⟨ch', hch', rfl, hx', rfl⟩ := findSample_some s c' sm' x' hf'
   obtain ⟨m, hm⟩ := Option.isSome_iff_exists.mp hm
   obtain ⟨m', hm'⟩ := Option.isSome_iff_exists.mp hm'
-  obtain ⟨h1, h2, h3⟩ := findMod_some x n _ m hm
-  obtain ⟨h1', h2', h3'⟩ := findMod_some x' n _ m' hm'
+  obtain ⟨h1, h2, h3⟩ := rej_findMod_some x n _ m hm
+  obtain ⟨h1', h2', h3'⟩ := rej_findMod_some x' n _ m' hm'
   obtain ⟨rfl, rfl⟩ := shapesys_unique s hr n ch ch' hch hch' x x' hx hx' ⟨m, h1, h3, h2⟩ ⟨m', h1', h3', h2'⟩
   exact ⟨rfl, rfl, rfl⟩
 
@@ -1275,7 +1275,7 @@ theorem reindex_shapesys_entry (P : Prim K) (s : Spec K) (hr : shapesysReuse s =
   obtain ⟨p, hp, hpn⟩ := paramset_of_builder_entry P s _ ps hc .shapesys bl hb e he
   have hen' : e.1 = n' := hen
   have hk : (selection (parSlices ps) n').length = x'.data.length := by
-    rw [selection_length, ← hen', hp]
+    rw [rej_selection_length, ← hen', hp]
     simp only [Option.map_some, Option.getD_some]
     rw [hpn, hee]
     simp only [reqOf, reqShapesys, List.length_zip]
@@ -1320,7 +1320,7 @@ theorem reindex_staterror_entry (P : Prim K) (s : Spec K)
     · exact hrest sm h
   obtain ⟨p, hp, hpn⟩ := paramset_of_builder_entry P s _ ps hc .staterror bl hb e he
   have hk : (selection (parSlices ps) n).length = sig.length := by
-    rw [selection_length, ← hen, hp]
+    rw [rej_selection_length, ← hen, hp]
     simp only [Option.map_some, Option.getD_some]
     rw [hpn, her]
     rfl
